@@ -4,7 +4,7 @@
 P="$1"; ID="$2"; TIER="${3:-quick}"
 if [ -n "$(git -C /repo status --porcelain --untracked-files=no)" ]; then echo "/repo is dirty, refusing"; exit 3; fi
 git -C /repo apply "$P" || { echo "patch does not apply"; exit 3; }
-/verif/bin/check "$ID" --tier "$TIER" > /tmp/try_patch.$$.log 2>&1; rc=$?
+timeout 1500 /verif/bin/check "$ID" --tier "$TIER" > /tmp/try_patch.$$.log 2>&1; rc=$?
 git -C /repo checkout -- . ; git -C /repo clean -fdq -- . >/dev/null 2>&1
 grep -E -A6 "VIOLATION|KNOWN-FINDING|INFRA-ERROR|violation sig" /tmp/try_patch.$$.log | cut -c1-400 | head -16
 echo "exit=$rc"; rm -f /tmp/try_patch.$$.log
